@@ -504,3 +504,31 @@ Proof.
     by (unfold Rdiv; ring).
   exact H.
 Qed.
+
+(* ---------- calculate_pdf followed by eliminate_maxima_height ---------- *)
+
+Theorem fit_eliminate_spec fmax n k gdens e c mn mx dc h i :
+  (1 <= n)%nat ->
+  calculate_pdf ROps fmax 1000 n k gdens e = (c, mn, mx, dc) ->
+  (i < n)%nat ->
+  let dens := map fst dc in
+  let cost := map snd dc in
+  let cost' := eliminate_maxima ROps h dens cost in
+  nth i dens 0 = fst (nth i dc (0, 0)) /\
+  (0 < h -> nth i cost' 0 = Rmax (nth i dens 0 - h) 0 /\ 0 <= nth i cost' 0 < nth i dens 0) /\
+  (h <= 0 -> nth i cost' 0 = nth i dens 0 - 1 /\ 0 <= nth i cost' 0 < nth i dens 0).
+Proof.
+  intros Hn Hcalc Hi dens cost cost'.
+  pose proof (dc_length fmax n k gdens e c mn mx dc Hcalc) as Hlen.
+  assert (Hd : nth i dens 0 = fst (nth i dc (0, 0))).
+  { unfold dens. change 0 with (fst (0, 0)) at 1. apply map_nth. }
+  assert (Hc : nth i cost 0 = snd (nth i dc (0, 0))).
+  { unfold cost. change 0 with (snd (0, 0)) at 1. apply map_nth. }
+  pose proof (density_range fmax n k gdens e c mn mx dc Hcalc i Hi) as Hr.
+  pose proof (cost_density fmax n k gdens e c mn mx dc Hcalc i Hi) as Hcd.
+  split; [exact Hd|]. split; intro Hh.
+  - assert (Hl : (i < length dens)%nat) by (unfold dens; rewrite map_length; lia).
+    split; [apply eliminate_nth; auto|].
+    apply eliminate_cost_lt_density; auto. rewrite Hd. lra.
+  - unfold cost'. rewrite eliminate_spec_nonpos by exact Hh. rewrite Hc, Hd, Hcd. lra.
+Qed.
